@@ -150,11 +150,30 @@ def c01_runs(tier):
     return runs
 
 
+def c18_runs(tier):
+    th = tier == "thorough"
+    runs = [("san", ["--mode", "faults", "--mtu", "1500", "--part", str(i), "--nparts", "12"], 0) for i in range(12)]
+    runs += [("san", ["--mode", "faults", "--mtu", "576", "--wifi", "1", "--part", str(i), "--nparts", "4"], 0) for i in range(4)]
+    np_ = 8 if th else 4
+    runs += [("plain", ["--mode", "equiv", "--mtu", "1500", "--part", str(i), "--nparts", str(np_)], 1) for i in range(np_)]
+    return runs
+
+
 EMIT = {"main": {"sources": MC + ["checks/emit.c"], "modes": ["c06", "c10"]}}
 OBS = {"main": {"sources": MC + ["checks/obs.c"], "modes": ["c07", "c19"]}}
 PROTO = {"main": {"sources": MC + ["checks/proto.c"], "modes": ["c02", "c03", "c09"]}}
 
 PROPS = {
+    "C18": {
+        "engine": "E5+E3",
+        "builds": {"san": {"flavour": "san", "sources": SANMC + ["mc/oracles.c", "checks/c18.c"], "modes": ["faults"]},
+                   "plain": {"sources": MC + ["checks/c18.c"], "modes": ["equiv"]}},
+        "runs": c18_runs, "level": "fault_enumeration", "timeout": {"quick": 1200, "thorough": 3400},
+        "technique": "deviation-bounded fault enumeration: every fallible port call of every scenario (request histories of length <= 2 from two start states, four constructors) is failed in turn (thorough: every pair), plus sticky modes and every subset of failing getters, under ASan/UBSan in forked children; then Reset and a product exploration against a fresh responder to pair closure",
+        "rule": "one evaluation = one scenario executed under one fault plan; non-trivial = at least one injected fault took effect; distinct_nontrivial counts distinct (transmitted trace, faults taken) outcomes",
+        "assumptions": ["under faults only structural well-formedness and the per-request frame bound are demanded of transmitted frames (a Hello built while the address getter fails carries a zero address)",
+                        "scenario corpus is generated (all histories of length <= 2 over 10 request types), not hand-picked"],
+    },
     "C01": {
         "engine": "E4",
         "builds": {"san": {"flavour": "san", "sources": SANMC + ["checks/c01.c"], "repo_extra": ["os/esp32/daemon/lltd_esp32.c"],
